@@ -31,6 +31,7 @@ RULE = (
 )
 RULE += (" One of the placeholder names has 81 characters.")
 RULE += (" Case-sensitive field-bound values (cased, contains|cased) with placeholders are included (the backend interface has no case-sensitive form for unbound values, so keywords are not).")
+RULE += (" Regular-expression flag modifiers are placed before and after expand.")
 ASSUMPTIONS = [
     "vf/ref/modifiers.py defines which %name% sequences are placeholders",
     "variable values inserted into regular expressions are alphanumeric (insertion of regex "
@@ -289,7 +290,8 @@ def cases(draw):
     value = one_value() if draw(st.booleans()) else [one_value() for _ in range(draw(st.integers(1, 3)))]
     mods = []
     if pos == "regex":
-        mods = ["re"] + draw(st.sampled_from([[], ["i"]])) + ["expand"]
+        mods = ["re"] + draw(st.sampled_from([[], ["i"], ["i", "m"]])) + ["expand"] + draw(st.sampled_from([[], [], ["i"], ["s"], ["m", "s"]]))
+        mods = list(dict.fromkeys(mods))
         field = "f"
     else:
         field = "" if pos == "keyword" else "f"
